@@ -110,6 +110,71 @@ def _both(c, op, a, b):
   return ra, rb
 
 
+def h_quantize_extract(c):
+  """Notes given by TIMES (no two same-pitch notes overlap or coincide in
+  time), quantized by the real quantizer, then extracted as a Performance with
+  velocity bins - in both storage orders.  Time-disjoint notes of one pitch may
+  land on the same start step; the extraction must not depend on the storage
+  order even then."""
+  sl = c.mod('sequences_lib')
+  pl = c.mod('performance_lib')
+  n, swap, sps = c.params['n'], c.params['swap'], c.params['sps']
+  nsa = c.pb.NoteSequence()
+  specs = []
+  for i in range(n):
+    s_ = c.real('n%d_s' % i, 0, 1)
+    e_ = c.real('n%d_e' % i, 0, 1)
+    c.assume(s_ < e_)
+    p_ = c.int('n%d_p' % i, 60, 61)
+    v_ = c.int('n%d_v' % i, 1, 127)
+    specs.append((s_, e_, p_, v_))
+    nsa.notes.add(start_time=s_, end_time=e_, pitch=p_, velocity=v_)
+  for a in range(n):
+    for b in range(a + 1, n):
+      A, B = specs[a], specs[b]
+      c.assume(c.Or(c.Not(c.eq(A[2], B[2])), A[1] < B[0], B[1] < A[0]))
+  nsa.total_time = 1
+  nsb = c.pb.NoteSequence()
+  nsb.CopyFrom(nsa)
+  del nsb.notes[:]
+  src = list(nsa.notes)
+  for i in _order(n, swap):
+    nsb.notes.add().CopyFrom(src[i])
+
+  which = c.params.get('type', 'performance')
+  if which != 'performance':
+    nsa.tempos.add(qpm=60)  # steps_per_quarter == steps per second
+    nsb.tempos.add(qpm=60)
+
+  def run(ns):
+    if which == 'performance':
+      q = sl.quantize_note_sequence_absolute(ns, sps)
+      p = pl.Performance(q, start_step=0,
+                         num_velocity_bins=c.params.get('bins', 4),
+                         max_shift_steps=c.params.get('ms', 100))
+      return [(e.event_type, e.event_value) for e in p]
+    q = sl.quantize_note_sequence(ns, sps)
+    if which == 'melody':
+      m = c.mod('melodies_lib').Melody()
+      m.from_quantized_sequence(q, 0, 0, 1, True, False, False)
+      return [(0, e) for e in m] + [(1, m.start_step), (2, m.end_step)]
+    r = c.mod('pianoroll_lib').PianorollSequence(
+        quantized_sequence=q, start_step=0, min_pitch=60, max_pitch=61)
+    return [(0, len(e)) for e in r] + [(1, r.start_step), (2, r.end_step)]
+
+  ra, rb = _both(c, run, nsa, nsb)
+  if ra is None:
+    return
+  c.check(len(ra) == len(rb) and bool(c.And(
+      [c.And(x[0] == y[0], c.eq(x[1], y[1])) for x, y in zip(ra, rb)] or
+      [True])), 'same extracted events for both storage orders')
+  if n >= 2:
+    c.cover('time-disjoint same-pitch notes on one start step',
+            c.And(c.eq(specs[0][2], specs[1][2]),
+                  c.eq(c.Floor(specs[0][0] * sps + 0.5),
+                       c.Floor(specs[1][0] * sps + 0.5))))
+
+
 def _std_fields(c, which, n):
   """Symbolic specs for the repeated field `which` with n elements (plus one
   note); the other fields stay empty so that the case split on event positions
@@ -383,6 +448,7 @@ HARNESSES = {
     'h_frame_roll': h_frame_roll,
     'h_seq_op': h_seq_op,
     'h_extract_events': h_extract_events,
+    'h_quantize_extract': h_quantize_extract,
     'h_chord_events': h_chord_events,
 }
 
@@ -427,6 +493,9 @@ def jobs(tier):
             required=False)
       add('h_extract_events', type=t, n=2, swap=0, S=6, budget=1800)
   add('h_extract_events', type='pianoroll', n=2, swap=0, S=4, split=False)
+  add('h_quantize_extract', n=2, swap=0, sps=4, bins=4, budget=900)
+  add('h_quantize_extract', n=2, swap=0, sps=4, type='melody', budget=900)
+  add('h_quantize_extract', n=2, swap=0, sps=4, type='pianoroll', budget=900)
   add('h_midi_export', field='notes', n=2, swap=0)
   add('h_midi_export', field='tempos', n=2, swap=0)
   add('h_midi_export', field='tempos', n=3, swap=1, budget=600)
